@@ -19,9 +19,15 @@ class Crash(BaseException):
 
 
 class Injector:
-    def __init__(self, crash_at=None, torn=False, log_only=False):
+    def __init__(self, crash_at=None, torn=False, log_only=False, buffered=False):
+        """buffered=False: every write() call reaches the disk at once (one effect per call).
+        buffered=True: what is written stays in the process (as with Python's buffered files, which
+        these small files never fill) and reaches the disk when the file is flushed or closed: that
+        flush is the effect (tearable); a process that dies with the file still open loses it."""
         self.crash_at = crash_at
         self.torn = torn
+        self.buffered = buffered
+        self.crashed = False
         self.n = 0
         self.log = []
         self.active = False
@@ -51,6 +57,7 @@ class Injector:
                 writer(half)
                 self.log[-1] = (i, kind + ":torn", self.rel(target))
             self.active = False
+            self.crashed = True
             raise Crash(f"crash at effect {i} ({kind} {self.rel(target)})")
         return True
 
@@ -66,23 +73,71 @@ class Injector:
         class WFile:
             def __init__(self, f, name):
                 self._f, self._name = f, name
+                self._buf = []
 
             def write(self, data):
                 def raw(d):
                     self._f.write(d)
                     self._f.flush()
+                if inj.buffered:
+                    if inj.crashed:
+                        return len(data)
+                    self._buf.append(data)
+                    return len(data)
                 inj.effect("write", self._name, raw, data)
                 return self._f.write(data)
+
+            def _drain(self, kind):
+                if inj.crashed:
+                    self._buf = []
+                    return
+                if self._buf:
+                    data = self._buf[0][:0].join(self._buf)
+                    self._buf = []
+
+                    def raw(d):
+                        self._f.write(d)
+                        self._f.flush()
+                    inj.effect(kind, self._name, raw, data)
+                    self._f.write(data)
+                    self._f.flush()
+
+            def flush(self):
+                self._drain("write:flush")
+                if not inj.crashed:
+                    self._f.flush()
+
+            def close(self):
+                try:
+                    self._drain("write:close")
+                finally:
+                    try:
+                        self._f.close()
+                    except Exception:
+                        pass
+
+            def __del__(self):
+                try:
+                    if self._buf and not inj.crashed:
+                        self._f.write(self._buf[0][:0].join(self._buf))
+                    self._f.close()
+                except Exception:
+                    pass
 
             def __enter__(self):
                 return self
 
-            def __exit__(self, *a):
-                # a killed process does not flush: what was written through effect() is already flushed
-                try:
-                    self._f.close()
-                except Exception:
-                    pass
+            def __exit__(self, et, ev, tb):
+                # a killed process does not flush: what was written through effect() is already flushed,
+                # what is still buffered (buffered mode) is lost
+                if et is not None and issubclass(et, Crash):
+                    self._buf = []
+                    try:
+                        self._f.close()
+                    except Exception:
+                        pass
+                    return False
+                self.close()
                 return False
 
             def __getattr__(self, k):
